@@ -17,11 +17,11 @@ HARNESSES = [
     dict(name="radius", pkg="./plugins/auth/radius/", test="TestVerifC03Radius", timeout=300,
          files=[("plugins/auth/radius/zz_verif_c03_radius_test.go", "harness/C03/zz_verif_c03_radius_test.go")]),
 ]
-# first variant = the repaired code; "sbfailtwice" = /repo HEAD with the one open (known:) finding
-# pppoe-vpp-failure-after-teardown.  Every other C03 finding is fixed in /repo: a regression to one of them is a VIOLATION.
-# (The driver still accepts "defective" / "noteardown" / "heldanswer" = the code before e9950ea / 0709f1b, used only when a
-# patch is validated on a scratch tree.)
-VARIANTS = ["repaired", "sbfailtwice"]
+# first variant = the repaired code; "unnamedlease" = /repo HEAD with the one open (known:) finding
+# pppoe-dhcpv6-rereserve-drops-pool-name.  Every other C03 finding is fixed in /repo (last: 7b3d79c): a regression to one of
+# them is a VIOLATION.  (The driver still accepts "defective" / "noteardown" / "heldanswer" / "sbfailtwice" = the code before
+# e9950ea / 0709f1b / 7b3d79c, used only when a patch is validated on a scratch tree.)
+VARIANTS = ["repaired", "unnamedlease"]
 MODEL_NEEDS_IMPL = True   # only for the FSM table flavour reported by the harness (see notes/C03.md)
 RULE = ("pppoe: (a) systematic: each of 16 prefixes reaching a distinct phase/FSM situation (fresh, LCP open, auth pending, "
         "network, open, renegotiated, renegotiated+pending, re-authenticating, rejected, terminated, static address, "
@@ -273,8 +273,27 @@ def gen_pppoe_sbfail():
     return cases
 
 
+def gen_pppoe_relate():
+    """One IPv6 family is exhausted when a subscriber first solicits and available again later: the later DHCPv6 message
+    resolves the missing family, the provider reserves BOTH again, and the teardown must still return the one resolved
+    first (leases known to the provider only: no REPLY bound them to the session).  IA_NA and PD in both roles, the
+    second message a SOLICIT or a REQUEST, teardown by PADT / dead peer / dataplane failure / LCP Terminate, then a
+    third subscriber takes what must be free again."""
+    def full(i, k):
+        return ["o:%d" % i] + at(i, lcp_up(0)) + [fr(i, "chap", "resp"), "a:%d:acc" % k] + at(i, ncp_up(0))
+    cases = []
+    for pools in ("2/1/16", "2/1/1", "3/16/1", "3/2/1"):
+        for first in ("dh_sol", "dh_req"):
+            for second in (["dh_sol"], ["dh_req"], ["dh_sol", "dh_sol"], ["dh_sol", "dh_req"]):
+                for end in (["x:1"], ["d:1"], ["v:fail", "v:fail"], [fr(1, "lcp", "treq")]):
+                    ev = full(0, 1) + [fr(0, "ip6", first)] + full(1, 2) + [fr(1, "ip6", "dh_sol"), "x:0"] + \
+                         [fr(1, "ip6", k) for k in second] + end + full(2, 3) + [fr(2, "ip6", "dh_req"), "x:2"]
+                    cases.append("pppoe %s " % pools + " ".join(ev))
+    return cases
+
+
 def gen_pppoe(rng, tier, budget):
-    cases = gen_pppoe_raced() + gen_pppoe_parked() + gen_pppoe_sbfail() + gen_pppoe_v6(random.Random(rng.random()), tier)
+    cases = gen_pppoe_raced() + gen_pppoe_parked() + gen_pppoe_sbfail() + gen_pppoe_relate() + gen_pppoe_v6(random.Random(rng.random()), tier)
     pf = prefixes()
     for name, p in pf.items():
         for e in alphabet():
@@ -491,6 +510,8 @@ def classify(case, impl, model):
 def signature(case, impl, models):
     t = case.split()
     rep, dfc = models["repaired"], models.get("defective", models["repaired"])
+    if t[0] == "pppoe" and impl == models.get("unnamedlease"):
+        return "pppoe-dhcpv6-rereserve-drops-pool-name"
     if t[0] == "pppoe" and impl == models.get("sbfailtwice"):
         k = first_div(rep, impl)
         ev = t[2:]
